@@ -162,7 +162,7 @@ PROPS = {
     },
     "C02": {
         "chain": [chain("ent", 24, 25, 300, 40), chain("all", 16, 25, 200, 40), chain("authz", 8, 20, 100, 30), chain("gov", 8, 20, 100, 30), chain("quorum", 12, 25, 150, 40)],
-        "corpus": ["witness", "regress", "known"],
+        "corpus": ["witness", "regress", "known", "outside-premises"],
         "relevant": rel_kinds(("I", "K", "B", "E", "D ent.po", "D ent.aq", "D bank.supply", "D bank.bal", "D bank.fees"), lambda k: True),
         "level_text": "Proof: c02_supply_changes_only_by_completion (over every elementary step of every message kind, nesting, ante effect and block hook the supply of every denomination is unchanged, except the completion of an accepted order, which adds exactly its amount in the enterprise denomination), c02_mint_adds_exactly, c02_mint_sites_and_permissions (MintCoins call sites, no BurnCoins call, no mint module, Minter holders: regenerated from the source every run), c02_balances_sum_to_supply (in every state of every run the sum of all account balances equals the recorded supply, for every denomination).",
         "level_note": ENT_NOTE + " Supply and balances are those of bank-lite (scenario and module accounts); staking/distribution/gov-deposit movements of the validator environment are outside the model and are compared as the environment-adjusted supply line of the digest. 'Sum of balances = supply' is proved in the model (c02_balances_sum_to_supply) and additionally checked on the implementation side by the bank's registered total-supply invariant each block.",
